@@ -172,7 +172,7 @@ func judge(c *Case, o *obs, verbose bool) *verdict {
 		say("RunDSL panicked at %s: %s", o.PanicSite, o.Panic)
 		return v
 	}
-	nTok := len(o.Tokens[phDSL]) + len(o.Tokens[phValidate])
+	nTok := len(o.Tokens[phDSL]) + len(o.Tokens[phPrepare]) + len(o.Tokens[phValidate])
 	v.accepted = o.ErrNil
 	say("RunDSL returned %s; errors reported by scripts: %d during execution, %d by validators",
 		map[bool]string{true: "nil", false: "error " + fmt.Sprintf("%q", o.ErrText)}[o.ErrNil], len(o.Tokens[phDSL]), len(o.Tokens[phValidate]))
@@ -252,6 +252,7 @@ func judge(c *Case, o *obs, verbose bool) *verdict {
 	// ---- 3. completeness: everything registered goes through every phase
 	dslFailed := len(o.Tokens[phDSL]) > 0
 	valFailed := len(o.Tokens[phValidate]) > 0
+	prepFailed := len(o.Tokens[phPrepare]) > 0
 	capOf := [4]byte{'S', 'P', 'V', 'F'}
 	// a root registered during execution that is skipped is ONE failure whatever the
 	// capabilities of its expressions: collected here, reported once per kind below
@@ -418,8 +419,22 @@ func judge(c *Case, o *obs, verbose bool) *verdict {
 			v.add("finalize-after-validation-error", "%d Finalize callbacks although validators returned %d errors", nFinal, len(o.Tokens[phValidate]))
 			say("VIOLATED: Finalize observed after a failed validation")
 		}
+	case prepFailed:
 	default:
 		say("no error was scripted to happen; %d Finalize callbacks observed", nFinal)
+	}
+	// errors reported while preparing: a phase of its own, "all errors of a phase are
+	// returned together". Whether Finalize may run afterwards is not stated: not judged.
+	if prepFailed && !dslFailed {
+		if o.ErrNil {
+			v.add("prepare-error-not-returned", "%d errors were reported with ReportError during the prepare phase, RunDSL returned nil", len(o.Tokens[phPrepare]))
+			say("VIOLATED: prepare reported errors, RunDSL returned nil")
+		} else if n, _, ex := missing(o.Tokens[phPrepare]); n > 0 {
+			v.add("prepare-errors-not-all-returned", "%d of %d errors reported during the prepare phase are absent from the returned error (e.g. %s)", n, len(o.Tokens[phPrepare]), ex)
+			say("VIOLATED: %d of %d prepare errors missing from the returned error", n, len(o.Tokens[phPrepare]))
+		} else {
+			say("held: all %d prepare errors are in the returned error", len(o.Tokens[phPrepare]))
+		}
 	}
 	return v
 }
